@@ -31,6 +31,7 @@ BOUNDS = {"quick": {"tree_nodes": 4, "chain_depth": 3, "raising_nodes": "0 or 1"
 def selectors(tier):
     out = [("total", s) for s in E.chain_selectors(3, focus=False)]
     out += [("total", s) for s in E.sibling_selectors(focus=False, deep=(tier == "thorough"))]
+    out += [("total", s) for s in E.value_selectors(focus=False)]
     if tier == "quick":
         out += [("forced", s) for s in E.chain_selectors(2)] + [("forced", s) for s in E.sibling_selectors()]
     else:
@@ -60,6 +61,10 @@ def split_records(trace):
     for ev in trace:
         if ev[0] == "record":
             pending.append(ev[1])
+        elif ev[0] == "bind" and ev[2] == "#value":
+            # the helper logs the return value after the call returned, i.e. after the records
+            # published at the activation's exit: not a separation between records and their exit
+            clean.append(ev)
         else:
             if ev[0] == "exit" and pending:
                 by_exit[ev[1]] = pending
